@@ -160,6 +160,9 @@ pub enum Op {
     HReadUntil { slot: u8, byte: u8 },
     /// Seek::rewind
     HRewind { slot: u8 },
+    /// use of a handle whose own stream has been removed (C07: must touch nothing else);
+    /// how: 0 read, 1 write_all+flush, 2 set_len, 3 seek+read, 4 write, 5 drop
+    HStaleUse { k: u8, how: u8, data: DataSpec },
 }
 
 impl Op {
@@ -209,6 +212,7 @@ impl Op {
             Op::HReadV { .. } => "h_read_vectored",
             Op::HReadUntil { .. } => "h_read_until",
             Op::HRewind { .. } => "h_rewind",
+            Op::HStaleUse { .. } => "h_stale_use",
         }
     }
     pub fn is_mutation(&self) -> bool {
